@@ -396,14 +396,18 @@ def shift_tok(tok, c):
     return tok
 
 
-def history(rng, n, mkval, weights=(0.7, 0.12, 0.09, 0.09), t0=None, dt=None, repeat_ts=False):
-    """n events over {present, absent, E1, E2}; present samples get increasing timestamps"""
+def history(rng, n, mkval, weights=(0.7, 0.12, 0.09, 0.09), t0=None, dt=None, repeat_ts=False, restart_ties=True):
+    """n events over {present, absent, E1, E2, EN}; present samples get increasing timestamps.  `restart_ties`: the first
+    present sample after an absent/errored event sometimes carries exactly the timestamp of the last sample before it (a stale
+    "no time has passed" shortcut must not keep the error / old state alive)."""
     t = rng.randint(-10 ** 12, 10 ** 12) if t0 is None else t0
     evs = []
     for _ in range(n):
         r = rng.random()
         if r < weights[0]:
             if repeat_ts and rng.random() < 0.15:
+                step = 0
+            elif restart_ties and evs and evs[-1][0] != "S" and rng.random() < 0.25:
                 step = 0
             else:
                 step = dt(rng) if dt else log_dt(rng)
@@ -414,14 +418,15 @@ def history(rng, n, mkval, weights=(0.7, 0.12, 0.09, 0.09), t0=None, dt=None, re
         elif r < weights[0] + weights[1] + weights[2]:
             evs.append("E1")
         else:
-            evs.append("E2")
+            evs.append(rng.choice(["E2", "EN"]))     # Error::Other(2) / Error::FromNone (an elevated None is still an error)
     return evs
 
 
 def all_histories(rng, maxlen, mkval):
-    """every interleaving of {S, N, E1, E2} up to maxlen, timestamps increasing by 1 s"""
+    """every interleaving of {S, N, E1, E2, EN} up to maxlen, timestamps increasing by 1 s (a present sample that directly
+    follows a non-present event repeats the previous timestamp in a second copy of the history)"""
     for n in range(1, maxlen + 1):
-        for cats in itertools.product("SN12", repeat=n):
+        for cats in itertools.product("SN12F", repeat=n):
             t = 0
             evs = []
             for c in cats:
@@ -429,8 +434,22 @@ def all_histories(rng, maxlen, mkval):
                     t += 1_000_000_000
                     evs.append("S@%d@%s" % (t, mkval(rng)))
                 else:
-                    evs.append({"N": "N", "1": "E1", "2": "E2"}[c])
+                    evs.append({"N": "N", "1": "E1", "2": "E2", "F": "EN"}[c])
             yield evs
+            # same categories, but time stands still across every gap
+            if any(a != "S" and b == "S" for a, b in zip(cats, cats[1:])) and "S" in cats[:-1]:
+                t = 0
+                evs2 = []
+                prev = None
+                for c in cats:
+                    if c == "S":
+                        if prev is None or prev == "S":
+                            t += 1_000_000_000
+                        evs2.append("S@%d@%s" % (t, mkval(rng)))
+                    else:
+                        evs2.append({"N": "N", "1": "E1", "2": "E2", "F": "EN"}[c])
+                    prev = c
+                yield evs2
 
 
 def mkq(mm, s):
